@@ -113,14 +113,17 @@ InitTup(cf) ==
           cs = TC(cf, op, cf.ty, [XT0 EXCEPT !.p = p, !.i = i, !.mode = m])
     \/ \E op \in {"apply", "mft"}, p \in SeqsOf(n), m \in 1..3 : cs = TC(cf, op, cf.ty, [XT0 EXCEPT !.p = p, !.mode = m])
     \/ \E p \in SeqsOf(n) : cs = TC(cf, "make", cf.ty, [XT0 EXCEPT !.p = p])
+    \/ cf.ty = <<"int", "int">> /\ \E p \in SeqsOf(2), m \in 1..3 : cs = TC(cf, "mft_il", cf.ty, [XT0 EXCEPT !.p = p, !.mode = m])
     \/ n = 2 /\ \E p \in SeqsOf(2), q \in SeqsOf(1) : cs = TC(cf, "sb", cf.ty, [XT0 EXCEPT !.p = p, !.q = q])
 
 \* converting construction / assignment pair<U1,U2> -> pair<T1,T2>
 ConvOpsT == {"ctor_conv_copy", "ctor_conv_move", "assign_conv_copy", "assign_conv_move"}
-ConvSrc(n) == IF n = "p_tt" THEN <<"trk", "int">> ELSE <<"int", "int">>
+ConvSrcs(n) == IF n = "p_tt" THEN {<<"trk", "int">>}
+               ELSE IF n = "p_ti" THEN {<<"int", "int">>, <<"tref", "int">>, <<"ctref", "int">>}
+               ELSE {<<"int", "int">>}
 InitConv ==
     \E cf \in {c \in Cfgs : c.n \in {"p_ii", "p_ti", "p_tt"}}, op \in ConvOpsT, p \in SeqsOf(2), q \in SeqsOf(2) :
-        cs = TC(cf, op, ConvSrc(cf.n), [XT0 EXCEPT !.p = p, !.q = q])
+        \E src \in ConvSrcs(cf.n) : cs = TC(cf, op, src, [XT0 EXCEPT !.p = p, !.q = q])
 
 \* tuple_cat over several shapes (first operand configuration, second operand configuration)
 CatShapes == {<<"t_ii", "t_i">>, <<"t_ttt", "t_ii">>, <<"p_ti", "t_ttt">>, <<"t_0", "t_ii">>, <<"t_i", "t_0">>, <<"t_mic", "p_tt">>}
